@@ -254,7 +254,7 @@ def conversation(ctx, form, compress, r):
         return False
     p.theirs.on_idle = on_idle
     try:
-        impl.ping("hello", timeout=1)
+        impl.ping("hello", timeout=None)
     except Exception as e:
         bad.append(("implementation rejects reference reply to its ping", repr(e)))
     reqs = holder.get("reqs", [])
